@@ -6,8 +6,20 @@ package asm
 
 //@ func (*Emitter).Len
 //@   params a
-//@   property C03
+//@   property C03 C19
 //@   ensures ret1 == a.n
+
+//@ func (*Emitter).Cap
+//@   params a
+//@   property C19
+//@   ensures ret1 == len(a.code)
+//@   assigns nothing
+
+//@ func (*Emitter).GetBase
+//@   params a
+//@   property C03
+//@   ensures ret1 == a.base
+//@   assigns nothing
 
 //@ func (*Emitter).PC
 //@   params a
